@@ -7,6 +7,8 @@ import re
 from .. import fmtdrv
 from ..core import unhexs, hexs
 from ..gen import TYPES, uni_text, uni_char, enc_msg, rand_ctx_bytes, CATS, FILES, FUNCS, u16, from_u16
+# names that a sloppy comparison takes for the default category
+NEAR_DEFAULT = [b"default.net", b"defaults", b"default2", b"defaul", b"Default", b"DEFAULT", b"xdefault", b"my.default", b"default ", b"d"]
 from .c13 import gen_value, deep_equal, text_classes
 
 LEVEL = "exploration"
@@ -54,7 +56,7 @@ def gen_case(rnd):
         "type": rnd.randrange(5), "line": rnd.choice([0, 1, 42, rnd.randint(0, 99999)]),
         "file": rnd.choice([None, b""] + FILES) if rnd.random() < 0.6 else rand_ctx_bytes(rnd),
         "func": rnd.choice([None, b""] + FUNCS) if rnd.random() < 0.6 else rand_ctx_bytes(rnd, 60),
-        "cat": rnd.choice(CATS + [b"", b"default"]) if rnd.random() < 0.7 else rand_ctx_bytes(rnd, 20),
+        "cat": rnd.choice(CATS + [b"", b"default"] + NEAR_DEFAULT) if rnd.random() < 0.7 else rand_ctx_bytes(rnd, 20),
         "text": text, "attrs": list(attrs.items()),
     }
     return m
